@@ -353,7 +353,6 @@ def _make_sptensor(ctx, case):
             S = ttb.sptensor.from_aggregator(subs.copy(), vals.copy(), shape) if given else \
                 ttb.sptensor.from_aggregator(subs.copy(), vals.copy())
             eshape = shape if given else tuple(int(x) + 1 for x in subs.max(axis=0))
-            o = np.lexsort(subs.T[::-1])
             if not (isinstance(S.subs, np.ndarray) and S.subs.shape == subs.shape):
                 ctx.skip("state-differs-from-model:aggregator")
             # the stored order of from_aggregator is not specified: take it from the object, the content from the model
@@ -362,7 +361,6 @@ def _make_sptensor(ctx, case):
                 ev = np.array([[key[tuple(r)]] for r in S.subs.tolist()])
             except KeyError:
                 ctx.skip("state-differs-from-model:aggregator")
-            del o
             return S, eshape, np.array(S.subs, dtype=int), ev
         if prov == "grown":  # the last stored entry is assigned beyond the present extent: shape grows
             last = subs[-1]
